@@ -530,6 +530,17 @@ func (p c04) traced(c *core.Ctx) {
 				return
 			}
 			lookupErr[name] = err != nil
+			if err == nil {
+				// a component whose initialization callback reported an error (a permanent fault: it does so every
+				// time) was not created: a lookup that returns it without an error hands out the half-built instance
+				for _, k := range sc.Nodes[i].Fails {
+					if (k == "init" || k == "aps") && countEvents(r, k, name) > 0 {
+						c.Fail("", fmt.Sprintf("lookup of %q returned an instance with a nil error although its %s callback reported an error in every creation attempt", name, map[string]string{"init": "Init", "aps": "AfterPropertiesSet"}[k]),
+							failDetail(sc, r, map[string]any{"events": renderEvents(r.Log.Events(), 80)}))
+						return
+					}
+				}
+			}
 		}
 	}
 	c.Count("start_outcome_"+r.Outcome(), 1)
